@@ -266,6 +266,12 @@ def cases(tier, rng):
         d = "".join(rng.choice("0123456789") for _ in range(n + (n % 2)))
         lines.append("tof 0 %s" % d.encode().hex())
         lines.append("tof 1 %s" % d.encode().hex())
+    import gaps
+    lines += gaps.family(rng, tier, ("codabar", "tof"))
+    for t in gaps.big_value_digit_runs(rng):
+        lines.append("tofcs " + t.encode().hex())
+    for t in gaps.zero_value_runs("0", "7", (10, 20, 40)):
+        lines.append("tofcs " + t.encode().hex())
     # the check-digit helper on very long digit strings (narrow accumulators: 8 bit from 15 nines, 16 bit from 3641)
     for n in ([15, 40, 300, 3641, 5000, 9000] if tier == "quick" else [15, 20, 40, 100, 300, 1000, 3640, 3641, 3642, 5000, 9000, 25000, 70000]):
         lines.append("tofcs " + ("9" * n).encode().hex())
